@@ -5,7 +5,7 @@ import Mathlib.Tactic.SplitIfs
 # Lemmas for `Props/Mul.lean`: closed forms of `setExponent` / `roundX` and of the oracle on
 decimal (`den = 1`) exact values.
 -/
-namespace Apd
+namespace Apd.MulL
 open Apd.Oracle
 
 /-! ## flag projections -/
@@ -732,4 +732,4 @@ theorem sub_rnd_digits (c : Ctx) (hc : c.WF) (neg : Bool) (N : Nat) (E : Int) (h
   have h2 : 10 ^ ndigits N ≤ 10 ^ (c.prec - 1 + k) := Nat.pow_le_pow_right (by decide) (by omega)
   omega
 
-end Apd
+end Apd.MulL
